@@ -61,6 +61,13 @@ type pworld struct {
 	nQueues int
 	burstNo int
 	file    *fileCase
+	stuck   bool // a queue stopped answering: its goroutines cannot be collected
+}
+
+// groupName: configured prioritization group of priority i — names as an operator writes them (mixed
+// case, digits, dashes); requests carry exactly the configured name in the group header.
+func groupName(i int) string {
+	return []string{"gold", "Silver", "BRONZE", "tin-Plated", "g4", "Team_Five", "six", "LAST"}[i%8]
 }
 
 const rollOwnerBase = -1000 // owner of key i's roll-over timer = rollOwnerBase - i
@@ -72,7 +79,7 @@ func newPWorld(quota, winsec, size, ttlsec, t0 int64) *pworld {
 	verifhook.Install(nil) // nobody is held at the yield point in plugin-level cases
 	groups := map[string]sharedConfig.Prioritization{}
 	for i := 0; i < 8; i++ {
-		groups["g"+strconv.Itoa(i)] = sharedConfig.Prioritization{Priority: float64(i)}
+		groups[groupName(i)] = sharedConfig.Prioritization{Priority: float64(i)}
 	}
 	w.cfg = sharedConfig.StrategyBasedQueueConfig{
 		AllowedRequestCount: quota, WindowSizeInSeconds: int(winsec), ResponseStatusCode: 429,
@@ -130,7 +137,7 @@ func (w *pworld) call(id string, key string, prio int) string {
 
 func (w *pworld) callCfg(id string, key string, prio int, cfg *sharedConfig.StrategyBasedQueueConfig) string {
 	act, err := w.pl.OnRequest(
-		messages.OnRequest{ID: id, Headers: map[string]string{"x-group": "g" + strconv.Itoa(prio)}},
+		messages.OnRequest{ID: id, Headers: map[string]string{"x-group": groupName(prio)}},
 		config.ScopedRemedy{Remedy: &sharedConfig.Remedy{Enabled: true, Name: key,
 			Config: sharedConfig.RemedyConfig{StrategyBasedQueue: cfg}}})
 	if err != nil {
@@ -177,11 +184,30 @@ func (w *pworld) burst(k, rounds int, o *proto.Out) string {
 				res <- w.call(fmt.Sprintf("%s-%d", key, i), key, 0)
 			}()
 		}
+		// a metrics scrape runs concurrently, as the requests_in_queue gauge callback does: Counts() of the key's queue
+		stopScrape := make(chan struct{})
+		for sc := 0; sc < 2; sc++ {
+			go func() {
+				for {
+					select {
+					case <-stopScrape:
+						return
+					default:
+					}
+					w.mu.Lock()
+					q := w.queues[key]
+					w.mu.Unlock()
+					if q != nil {
+						_ = q.Counts()
+					}
+				}
+			}()
+		}
 		close(start)
 		np, nr, no := 0, 0, 0
 		got := 0
 		// quiescent when every goroutine has either answered or asked for its TTL timer (= is in select)
-		waitUntil("burst to settle", func() bool {
+		settled := waitFor(1500*time.Millisecond, func() bool {
 			for {
 				select {
 				case a := <-res:
@@ -201,6 +227,13 @@ func (w *pworld) burst(k, rounds int, o *proto.Out) string {
 			}
 			return got+int(w.c.nTTL.Load()-ttl0) == k
 		})
+		close(stopScrape)
+		if !settled {
+			// some request neither answered nor reached its select within 1.5 s: the queue is stuck
+			w.stuck = true
+			o.Count("burst-stuck")
+			return fmt.Sprintf("rounds=%d stuck-in-round=%d answered=%d parked=%d of=%d", rounds, r, got, int(w.c.nTTL.Load()-ttl0), k)
+		}
 		w.mu.Lock()
 		nc := w.created[key]
 		w.mu.Unlock()
@@ -224,7 +257,11 @@ func (w *pworld) countsOf(ck int) string {
 	if q == nil {
 		return "-"
 	}
-	m := q.Counts()
+	m, ok := countsWithin(q, 3*time.Second)
+	if !ok {
+		w.stuck = true
+		return "queue-stuck"
+	}
 	var ps []float64
 	for p, n := range m {
 		if n != 0 {
@@ -387,6 +424,9 @@ func (w *pworld) shutdown() {
 	w.c.quiet = true
 	w.c.mu.Unlock()
 	w.c.fireAll()
+	if w.stuck {
+		return // the stuck queue's goroutines are leaked (they block for ever on its mutex)
+	}
 	w.mu.Lock()
 	n := int64(w.nQueues)
 	w.mu.Unlock()
@@ -412,6 +452,10 @@ func execPlugin(c proto.Case, o *proto.Out) []string {
 	for i, op := range c.Ops {
 		f := strings.Fields(op)
 		a := "bad-op"
+		if w != nil && w.stuck {
+			outs[i] = "queue-stuck"
+			continue
+		}
 		switch {
 		case len(f) == 0:
 		case f[0] == "pcfg":
